@@ -80,6 +80,12 @@ def gen_model(rnd, ctx, single=False):
                     ex = E.fromlist(op['eqs'][j][2])
                     ex = E.add(ex, E.mul(E.var(c), E.safe_call(rnd, rnd.choice(FUNCS), E.mul(E.num(abs(E.rnd_coef(rnd))), E.var(rnd.choice(states))))))
                     op['eqs'][j][2] = E.tolist(ex)
+            # declared values with more than six significant digits (0.4173000471)
+            for v, d in op['vars'].items():
+                if d[0] != 'in' and isinstance(d[1], float) and d[1] != 0.0:
+                    r_ = rnd.random()
+                    if r_ < 0.35:
+                        d[1] = float(f"{d[1] + rnd.uniform(1e-8, 9e-7):.12g}")
             ops[opn] = op
             nts[f'nt{i}'] = {'ops': [opn], 'over': {}}
             nodes[f'n{i}'] = f'nt{i}'
